@@ -33,7 +33,7 @@ COMPONENTS = {
     "stub": ["CAN backend (SimBus)", "can.Notifier", "time/queue in canopen.sdo.client", "device (StrictPdoDevice on RefSdoServer)"],
 }
 PROBES = ["prior-enabled", "source-attrs", "source-device", "source-od", "source-load_configuration", "cob-29bit", "no-rtr", "disabled", "event-driven",
-          "opt-sub3", "opt-sub5", "opt-sub6", "mapped-0", "mapped-8", "pdo-number>4"]
+          "opt-sub3", "opt-sub5", "opt-sub6", "mapped-0", "mapped-8", "pdo-number>4", "saved-twice"]
 
 NUMBERS = (1, 2, 3, 4, 5, 64, 511, 512)
 MAPPABLE = [  # (index, sub, dtype, bits)
@@ -269,66 +269,93 @@ def scenario(ctx):
                 _, exc = call(m.read, True)
                 if exc is not None:
                     ctx.violation("C09/read-raised/%s@%s" % (type(exc).__name__, site(exc)), "read(from_od=True) of %s%d raised %r" % (p["kind"], p["number"], exc))
-    # ---- save
-    mark = len(dev.log)
-    if source == "load_configuration":
-        _, exc = call(node.load_configuration)
-    elif ctx.choice(3, "saveall") == 0:
-        _, exc = call(node.pdo.save)
-    else:
-        exc = None
+    def save_and_judge(second):
+        # ---- save
+        mark = len(dev.log)
+        if source == "load_configuration" and not second:
+            _, exc = call(node.load_configuration)
+        elif ctx.choice(3, "saveall") == 0:
+            _, exc = call(node.pdo.save)
+        else:
+            exc = None
+            for p in pdos:
+                _, exc = call(pmap(p).save)
+                if exc is not None:
+                    break
+        if dev.refused:
+            r = dev.refused[0]
+            ctx.violation("C09/out-of-order-write-refused", "save() provoked a refusal by the strict device: write %04X:%02X <- 0x%X refused (0x%08X): %s; writes so far: %s" % (
+                r[0], r[1], r[2], r[3], r[4], ["%04X:%02X<-%X" % x for x in dev.log[mark:]][-8:]))
+        if exc is not None:
+            ctx.violation("C09/save-raised/%s@%s" % (type(exc).__name__, site(exc)), "save() raised %r" % (exc,))
+        # ---- judge the ordered writes per PDO
         for p in pdos:
-            _, exc = call(pmap(p).save)
-            if exc is not None:
-                break
-    if dev.refused:
-        r = dev.refused[0]
-        ctx.violation("C09/out-of-order-write-refused", "save() provoked a refusal by the strict device: write %04X:%02X <- 0x%X refused (0x%08X): %s; writes so far: %s" % (
-            r[0], r[1], r[2], r[3], r[4], ["%04X:%02X<-%X" % x for x in dev.log[mark:]][-8:]))
-    if exc is not None:
-        ctx.violation("C09/save-raised/%s@%s" % (type(exc).__name__, site(exc)), "save() raised %r" % (exc,))
-    # ---- judge the ordered writes per PDO
-    for p in pdos:
-        st = p["st"]
-        e = expect[(p["kind"], p["number"])]
-        log = [x for x in dev.log[mark:] if x[0] in (st.com, st.map)]
-        what = "%s%d (%s, prior %s) target cob=0x%X enabled=%s rtr=%s type=%s map=%s" % (
-            p["kind"], p["number"], source, p["prior"], e["cob_id"], e["enabled"], e["rtr"], e["type"], ["%04X:%02X/%d" % m for m in e["map"]])
-        show = ["%04X:%02X<-%X" % x for x in log]
-        if not log:
-            ctx.violation("C09/nothing-written", "%s: save() wrote nothing" % what)
-        first = log[0]
-        base = e["cob_id"] | (0 if e["rtr"] else 1 << 30)
-        if (first[0], first[1]) != (st.com, 1) or not (first[2] >> 31):
-            ctx.violation("C09/not-invalidated-first", "%s: first write is %04X:%02X <- 0x%X (the PDO must be invalidated first); writes: %s" % (what, first[0], first[1], first[2], show))
-        if first[2] != base | 1 << 31:
-            ctx.violation("C09/cob-id-encoding/invalidate", "%s: first write 0x%08X, expected 0x%08X" % (what, first[2], base | 1 << 31))
-        mw = [(i, x) for i, x in enumerate(log) if x[0] == st.map]
-        zero = [i for i, x in mw if x[1] == 0 and x[2] == 0]
-        ent = [(i, x) for i, x in mw if x[1] >= 1]
-        cnt = [i for i, x in mw if x[1] == 0]
-        if not zero or (ent and zero[0] > ent[0][0]):
-            ctx.violation("C09/count-not-zeroed-before-entries", "%s: writes %s" % (what, show))
-        if [x[2] for i, x in ent] != [_word(m) for m in e["map"]] or [x[1] for i, x in ent] != list(range(1, len(e["map"]) + 1)):
-            ctx.violation("C09/mapping-entries", "%s: mapping entries written %s, expected %s" % (
-                what, ["%d<-%08X" % (x[1], x[2]) for i, x in ent], ["%08X" % _word(m) for m in e["map"]]))
-        final_cnt = cnt[-1]
-        if log[final_cnt][2] != len(e["map"]) or (ent and final_cnt < ent[-1][0]):
-            ctx.violation("C09/count-not-set-after-entries", "%s: writes %s" % (what, show))
-        valid_writes = [i for i, x in enumerate(log) if (x[0], x[1]) == (st.com, 1) and not (x[2] >> 31)]
-        if e["enabled"]:
-            if not valid_writes or valid_writes[-1] != len(log) - 1 or len(valid_writes) != 1:
-                ctx.violation("C09/not-validated-last", "%s: writes %s" % (what, show))
-            if log[-1][2] != base:
-                ctx.violation("C09/cob-id-encoding/validate", "%s: last write 0x%08X, expected 0x%08X" % (what, log[-1][2], base))
-        elif valid_writes:
-            ctx.violation("C09/validated-although-disabled", "%s: writes %s" % (what, show))
-        # device state = target
-        if st.cob_word != (base | (0 if e["enabled"] else 1 << 31)) or st.count != len(e["map"]) or st.subs[2][1] != e["type"]:
-            ctx.violation("C09/device-state", "%s: device holds cob word 0x%08X, count %d, type %d" % (what, st.cob_word, st.count, st.subs[2][1]))
-        for s, val in e["subs"].items():
-            if st.subs[s][1] != val:
-                ctx.violation("C09/optional-entry-not-written", "%s: comm sub %d on the device is %d, configured %d" % (what, s, st.subs[s][1], val))
+            st = p["st"]
+            e = expect[(p["kind"], p["number"])]
+            log = [x for x in dev.log[mark:] if x[0] in (st.com, st.map)]
+            what = ("second save of the same map object: " if second else "") + "%s%d (%s, prior %s) target cob=0x%X enabled=%s rtr=%s type=%s map=%s" % (
+                p["kind"], p["number"], source, p["prior"], e["cob_id"], e["enabled"], e["rtr"], e["type"], ["%04X:%02X/%d" % m for m in e["map"]])
+            show = ["%04X:%02X<-%X" % x for x in log]
+            if not log:
+                ctx.violation("C09/nothing-written", "%s: save() wrote nothing" % what)
+            first = log[0]
+            base = e["cob_id"] | (0 if e["rtr"] else 1 << 30)
+            if (first[0], first[1]) != (st.com, 1) or not (first[2] >> 31):
+                ctx.violation("C09/not-invalidated-first", "%s: first write is %04X:%02X <- 0x%X (the PDO must be invalidated first); writes: %s" % (what, first[0], first[1], first[2], show))
+            if first[2] != base | 1 << 31:
+                ctx.violation("C09/cob-id-encoding/invalidate", "%s: first write 0x%08X, expected 0x%08X" % (what, first[2], base | 1 << 31))
+            mw = [(i, x) for i, x in enumerate(log) if x[0] == st.map]
+            zero = [i for i, x in mw if x[1] == 0 and x[2] == 0]
+            ent = [(i, x) for i, x in mw if x[1] >= 1]
+            cnt = [i for i, x in mw if x[1] == 0]
+            if not zero or (ent and zero[0] > ent[0][0]):
+                ctx.violation("C09/count-not-zeroed-before-entries", "%s: writes %s" % (what, show))
+            if [x[2] for i, x in ent] != [_word(m) for m in e["map"]] or [x[1] for i, x in ent] != list(range(1, len(e["map"]) + 1)):
+                ctx.violation("C09/mapping-entries", "%s: mapping entries written %s, expected %s" % (
+                    what, ["%d<-%08X" % (x[1], x[2]) for i, x in ent], ["%08X" % _word(m) for m in e["map"]]))
+            final_cnt = cnt[-1]
+            if log[final_cnt][2] != len(e["map"]) or (ent and final_cnt < ent[-1][0]):
+                ctx.violation("C09/count-not-set-after-entries", "%s: writes %s" % (what, show))
+            valid_writes = [i for i, x in enumerate(log) if (x[0], x[1]) == (st.com, 1) and not (x[2] >> 31)]
+            if e["enabled"]:
+                if not valid_writes or valid_writes[-1] != len(log) - 1 or len(valid_writes) != 1:
+                    ctx.violation("C09/not-validated-last", "%s: writes %s" % (what, show))
+                if log[-1][2] != base:
+                    ctx.violation("C09/cob-id-encoding/validate", "%s: last write 0x%08X, expected 0x%08X" % (what, log[-1][2], base))
+            elif valid_writes:
+                ctx.violation("C09/validated-although-disabled", "%s: writes %s" % (what, show))
+            # device state = target
+            if st.cob_word != (base | (0 if e["enabled"] else 1 << 31)) or st.count != len(e["map"]) or st.subs[2][1] != e["type"]:
+                ctx.violation("C09/device-state", "%s: device holds cob word 0x%08X, count %d, type %d" % (what, st.cob_word, st.count, st.subs[2][1]))
+            for s, val in e["subs"].items():
+                if st.subs[s][1] != val:
+                    ctx.violation("C09/optional-entry-not-written", "%s: comm sub %d on the device is %d, configured %d" % (what, s, st.subs[s][1], val))
+    save_and_judge(False)
+    if ctx.choice(3, "again") == 0:
+        # ---- the same node object is changed and saved again (what the device holds now is its 'prior state')
+        for p in pdos:
+            m = pmap(p)
+            e = expect[(p["kind"], p["number"])]
+            k = ctx.choice(4, "change")
+            if k in (0, 1):
+                # another mapping: emptied, or emptied and filled again
+                newmap = [] if k == 0 else _gen_mapping(ctx)
+                m.clear()
+                for (i, sx, bx) in newmap:
+                    m.add_variable(i, sx, bx)
+                e["map"] = list(newmap)
+            elif k == 2:
+                m.enabled = not e["enabled"]
+                e["enabled"] = m.enabled
+            # k == 3: saved again unchanged
+            # every attribute the map object holds is written again
+            if m.trans_type is not None:
+                e["type"] = m.trans_type
+            for sx, a2 in ((3, "inhibit_time"), (5, "event_timer"), (6, "sync_start_value")):
+                if sx in p["subs"] and getattr(m, a2) is not None:
+                    e["subs"][sx] = getattr(m, a2)
+        ctx.probe("saved-twice")
+        save_and_judge(True)
     # ---- read back into a fresh node on a fresh network
     net2, bus2 = world.make_network(ctx, w.ch, "fresh")
     node2 = canopen.RemoteNode(w.node_id, build_od(pdos))
